@@ -30,7 +30,7 @@ pub fn configs(thorough: bool) -> Vec<EpCfg> {
                     c.alph.send_fail = thorough;
                     // a DISCONNECT that carries a Session Expiry Interval (0 or 100): the client's decides about the
                     // session, one sent by a server decides nothing about the client's
-                    c.alph.disconnect_expiry0 = ver == Ver::V5 && auto && offline;
+                    c.alph.disconnect_expiry0 = ver == Ver::V5 && auto && (offline || role == RoleK::Any);
                     // a refused connection attempt (failure CONNACK sent or received) leaves the session alone
                     c.connacks.push(AckProf { ok: false, ..AckProf::basic(false) });
                     if auto && !offline && (thorough || role == RoleK::Client) {
@@ -120,8 +120,9 @@ pub fn configs(thorough: bool) -> Vec<EpCfg> {
         c.alph.als = vec![Al::No];
         c.alph.pub_q = vec![1];
         c.alph.peer_acks = vec![crate::refcodec::AckKind::Puback];
-        c.connects = vec![ConnProf::basic(false), ConnProf { mps: Some(12), ..ConnProf::basic(false) }];
-        c.connacks = vec![AckProf::basic(true), AckProf { mps: Some(12), ..AckProf::basic(true) }];
+        // (limit 10 is exactly the size of the stored PUBLISH on topic "bb": it still fits and is retransmitted)
+        c.connects = vec![ConnProf::basic(false), ConnProf { mps: Some(12), ..ConnProf::basic(false) }, ConnProf { mps: Some(10), ..ConnProf::basic(false) }];
+        c.connacks = vec![AckProf::basic(true), AckProf { mps: Some(12), ..AckProf::basic(true) }, AckProf { mps: Some(10), ..AckProf::basic(true) }];
         c.groups = vec!["c06"];
         v.push(c);
     }
@@ -146,10 +147,97 @@ pub fn run(rep: &mut Report) {
         c.groups = vec!["c06"];
         run_cfg::<u32>(rep, c, Limits::new(200, 300_000, 30.0), false);
     }
+    first_bytes(rep);
     for f in ["c06.stored", "c06.pubrel-stored", "c06.resume-retransmit", "ack.matching", "ack.unexpected", "session.resumed", "session.not-present", "session.clean-start", "c06.erase", "pub.accepted-not-sent", "pub.refused", "c17.connack-on-established"] {
         rep.floor(f, 1);
     }
     rep.assume("application contract of DESIGN §2.4: ids come from acquire_packet_id and acquire+send is one step; mandatory replies (PUBREL after PUBREC in manual mode) are issued in the same application step; the server application sends CONNACK session-present exactly when it kept the session; CONNACK does not override the session expiry");
+}
+
+/// A persistent session with one stored PUBLISH (built on the object itself, or restored into a fresh one), the
+/// connection closed. The first bytes the peer sends on the next transport are not under the application's
+/// control: every sequence of <= 2 frames over {DISCONNECT with Session Expiry Interval 0, CONNACK with Session
+/// Present 1 (although no CONNECT was sent), PINGRESP}, then the close. None of them is an acknowledgement, an
+/// erase or an oversize drop: the PUBLISH stays stored with its identifier held, and the next regular resume
+/// retransmits it.
+fn first_bytes(rep: &mut Report) {
+    use crate::bridge::build;
+    use crate::conn::{ConnBox, Ev};
+    use crate::refcodec::{self as rc, PVal, Prop, AP};
+    use crate::report::Violation;
+    let mut n = 0u64;
+    for role in [RoleK::Client, RoleK::Any] {
+        for ver in [Ver::V4, Ver::V5] {
+            for restored in [false, true] {
+                let frames: Vec<(&str, AP)> = {
+                    let mut f = vec![("CONNACK(session present 1) without a CONNECT", AckProf::basic(true).ap(ver)), ("PINGRESP", AP::Pingresp { ver })];
+                    if ver == Ver::V5 {
+                        f.push(("DISCONNECT(Session Expiry Interval 0)", AP::Disconnect { ver, code: Some(0), props: Some(vec![Prop { id: 0x11, val: PVal::U32(0) }]) }));
+                    }
+                    f
+                };
+                let mut seqs: Vec<Vec<usize>> = vec![];
+                for a in 0..frames.len() {
+                    seqs.push(vec![a]);
+                    for b in 0..frames.len() {
+                        seqs.push(vec![a, b]);
+                    }
+                }
+                for sq in seqs {
+                    n += 1;
+                    let names: Vec<&str> = sq.iter().map(|i| frames[*i].0).collect();
+                    let fr: Vec<AP> = sq.iter().map(|i| frames[*i].1.clone()).collect();
+                    let r = crate::util::guarded(move || -> Result<(), String> {
+                        let mut c = ConnBox::<u16>::new(role, Some(ver));
+                        c.set_auto_pub_response(true);
+                        let _ = c.send(build::<u16>(&ConnProf::basic(false).ap(ver)).ok().unwrap());
+                        let _ = c.recv_all(&rc::encode(&AckProf::basic(false).ap(ver), 2));
+                        let id = c.acquire().map_err(|e| format!("acquire: {e:?}"))?;
+                        let p = AP::Publish { ver, dup: false, qos: 1, retain: false, topic: b"a".to_vec(), pid: Some(id), props: vec![], payload: b"p".to_vec() };
+                        let _ = c.send(build::<u16>(&p).ok().unwrap());
+                        let _ = c.notify_closed();
+                        if restored {
+                            let export = c.stored();
+                            c = ConnBox::<u16>::new(role, Some(ver));
+                            c.set_auto_pub_response(true);
+                            c.restore_packets(export);
+                        }
+                        if c.stored().len() != 1 {
+                            return Err("setup: the PUBLISH is not stored".into());
+                        }
+                        for f in &fr {
+                            let (l, _) = c.recv_all(&rc::encode(f, 2));
+                            // a close request, a received DISCONNECT: the application closes the transport
+                            if l.iter().flatten().any(|e| matches!(e, Ev::Close)) || matches!(f, AP::Disconnect { .. }) {
+                                break;
+                            }
+                        }
+                        let ev = c.notify_closed();
+                        if ev.iter().any(|e| matches!(e, Ev::Released(_))) || c.stored().len() != 1 || c.clone().register(id).is_ok() {
+                            return Err(format!("after the close the store holds {} packet(s), identifier {id} is {}, notify_closed() returned {:?}", c.stored().len(), if c.clone().register(id).is_ok() { "free" } else { "in use" }, ev.iter().map(|e| e.short()).collect::<Vec<_>>()));
+                        }
+                        let _ = c.send(build::<u16>(&ConnProf::basic(false).ap(ver)).ok().unwrap());
+                        let (l, _) = c.recv_all(&rc::encode(&AckProf::basic(true).ap(ver), 2));
+                        let resent = l.iter().flatten().filter(|e| matches!(e, Ev::Send { ap: AP::Publish { dup: true, .. }, .. })).count();
+                        if resent != 1 {
+                            return Err(format!("the next resume retransmits {resent} packet(s): {:?}", l.iter().flatten().map(|e| e.short()).collect::<Vec<_>>()));
+                        }
+                        Ok(())
+                    });
+                    let cfgname = format!("c06 first bytes on the next transport ({role:?} {ver:?}{})", if restored { ", session restored into a fresh object" } else { "" });
+                    let hist = vec![serde_json::json!(format!("persistent session with a stored PUBLISH QoS 1, closed{}; peer's first bytes: {names:?}; notify_closed(); CONNECT; CONNACK(session present 1)", if restored { "; exported and restored into a fresh object" } else { "" }))];
+                    let tag = names.iter().map(|s| s.split('(').next().unwrap_or("")).collect::<Vec<_>>().join("+");
+                    match r {
+                        Err(m) => rep.violation(Violation { rule: "c06.first-bytes".into(), sig: format!("c06.first-bytes|panic|{}", crate::util::panic_sig(&m)), detail: format!("panic: {m}"), config: cfgname, history: hist }),
+                        Ok(Err(t)) => rep.violation(Violation { rule: "c06.first-bytes".into(), sig: format!("c06.first-bytes|{tag}|v{}|{role:?}", ver.level()), detail: format!("the stored PUBLISH of a persistent session was neither acknowledged nor erased nor dropped as oversize, yet {t}"), config: cfgname, history: hist }),
+                        Ok(Ok(())) => {}
+                    }
+                }
+            }
+        }
+    }
+    rep.count("c06.first-bytes-scripts", n);
+    rep.add_cov("traces_validated_against_impl", n);
 }
 
 pub fn replay(config: &str, labels: &[String]) -> Result<Vec<String>, String> {
